@@ -164,14 +164,19 @@ def run(ctx):
                            "failed verification are errors; verify is called with (public key bytes for that key id, decoded signature bytes, canonical JSON)")
     f5 = w.fn(f"{FN}::verify_canonical_json_for_entity")
     paths = dexu.paths(f5, [D.sym("entity"), D.sym("pkm"), D.sym("sigmap"), D.sym("cj")])
-    okp5 = [p for p in paths if p.kind == "ret" and U.is_ok(p.ret)]
+    # every return that is not a definite Err counts as a possible success: a returned call result may be Ok
+    okp5 = [p for p in paths if p.kind == "ret" and not U.is_err(p.ret)]
     ctx.floor("entity success paths", len(okp5), 1)
     for i, p in enumerate(okp5):
         tv = U.true_variants(p)
-        ver = {s: v for s, v in tv.items() if s.startswith("functions::verify_canonical_json_with(")}
-        good = list(ver.values()).count("Ok") >= 1 and "Err" not in ver.values()
-        ctx.check(good, "C02.entity", f"C02.entity:ok-needs-verified:{sorted(ver.values())}:{i}", w.where(f5),
-                  bad_msg=f"Ok(()) is returned with verification outcomes {sorted(ver.values())} (needs >=1 Ok and no Err)")
+        calls_v = [D.show(dex_ret(e)) for e in p.effects if e[0] == f"{FN}::verify_canonical_json_with"]
+        rets = D.show(p.ret)
+        outcome = [tv.get(c, "returned" if c == rets else "unchecked") for c in calls_v]
+        good = (outcome.count("Ok") + outcome.count("returned")) >= 1 and all(o in ("Ok", "returned") for o in outcome) and \
+            (U.is_ok(p.ret) or rets in calls_v)
+        ctx.check(good, "C02.entity", f"C02.entity:ok-needs-verified:{sorted(outcome)}:{i}", w.where(f5),
+                  bad_msg=f"a possibly-successful return ({rets[:80]}) is reached with verification outcomes {outcome}: every "
+                          f"verify_canonical_json_with on the path must have succeeded (or be the returned value) and there must be at least one")
         for e in p.effects:
             if e[0] == f"{FN}::verify_canonical_json_with":
                 a = U.shows(e[1])
